@@ -2,7 +2,9 @@
 """keep_seed.py <seedname> <caught|missed> "<what I ran / result>"  - copy a verified seeded change from /tmp/seeded into /verif/seeded"""
 import json, os, shutil, sys
 name, status, note = sys.argv[1], sys.argv[2], sys.argv[3]
-src, dst = f'/tmp/seeded/{name}', f'/verif/seeded/{name}'
+import os as _os
+src = f'/tmp/seeded/{name}' if _os.path.isdir(f'/tmp/seeded/{name}') else f'/tmp/seeded2/{name}'
+dst = f'/verif/seeded/{name}'
 ver = json.load(open(f'{src}/verified.json'))
 assert ver['verified'], ver
 os.makedirs(dst, exist_ok=True)
